@@ -235,11 +235,24 @@ def _mk(protocol, authenticated, script=''):
     return p
 
 
-def _next_len(protocol, header):
+def _next_len(protocol, header, limit=40 * 2 ** 20):
     p = _mk(protocol, True)
     p.dataReceived(bytes(header))
-    # a message that is already complete has been delivered (and the cache reset)
-    return p._nextMsgLen or (len(p.got[0]) if p.got else 0)
+    # fast path: the cached length where we know it (a message that is already complete has been delivered
+    # and the cache reset)
+    n = getattr(p, '_nextMsgLen', None)
+    if isinstance(n, int) and not isinstance(n, bool):
+        return n or (len(p.got[0]) if p.got else 0)
+    # behavioural: feed filler bytes until the message announced by this header is delivered; its length is the
+    # announced length (bounded: lengths above 40 MB are not measured this way)
+    fed = len(header)
+    chunk = 64
+    while not p.got and fed < limit:
+        # filler 0xff: what is left over behind the message announces an enormous length and just stays buffered
+        p.dataReceived(b'\xff' * chunk)
+        fed += chunk
+        chunk = min(chunk * 2, 2 ** 22)
+    return len(p.got[0]) if p.got else 0
 
 
 def _probe(protocol, t):
@@ -252,7 +265,7 @@ def _probe(protocol, t):
         h = bytearray(base)
         h[0] = b0
         h[4] = 1
-        if _next_len(protocol, h) == t['MSG_HDR_LEN'] + 1:
+        if _next_len(protocol, h, limit=256) == t['MSG_HDR_LEN'] + 1:
             lit.append(b0)
     if len(lit) == 1:
         r['littleMarker'] = lit[0]
@@ -260,29 +273,31 @@ def _probe(protocol, t):
         z = bytearray(base)
         z[0] = L
         n0 = _next_len(protocol, z)
-        # which byte positions feed a length, and with which weight 256^j (the value 8 needs no padding)
-        weight = {}
+        # which byte positions feed a length, and with which weight 256^j: set one byte to 1 and look at the
+        # announced length.  +256^j (j >= 1): a higher byte of either length; +1: the low byte of the body
+        # length; +1+padding (2..63): the low byte of the header-array length
+        weight, low_body, low_harr = {}, [], []
         for i in range(1, 16):
             h = bytearray(z)
-            h[i] = 8
-            d = _next_len(protocol, h) - n0
-            for j in range(0, 5):
-                if d == 8 * 256 ** j:
-                    weight[i] = j
-        # contiguous runs with weights 0, 1, 2, ... ; the run whose low byte, set to 1, adds exactly 1 is the
-        # body length, the run whose low byte adds 1 + padding is the length of the header field array
-        starts = [i for i in weight if weight[i] == 0]
-        for a0 in starts:
-            n = 0
-            while weight.get(a0 + n) == n:
-                n += 1
-            h = bytearray(z)
-            h[a0] = 1
+            h[i] = 1
             d = _next_len(protocol, h) - n0
             if d == 1:
-                r.setdefault('bodyLenSlice', (a0, a0 + n))
-            elif d > 1:
-                r.setdefault('harrLenSlice', (a0, a0 + n))
+                weight[i] = 0
+                low_body.append(i)
+            elif 1 < d < 64:
+                weight[i] = 0
+                low_harr.append(i)
+            else:
+                for j in range(1, 4):
+                    if d == 256 ** j:
+                        weight[i] = j
+        for name, lows in (('bodyLenSlice', low_body), ('harrLenSlice', low_harr)):
+            if len(lows) == 1:
+                a0, n = lows[0], 0
+                while weight.get(a0 + n) == n:
+                    n += 1
+                if n == 4:                      # a UINT32; anything else is not measured reliably
+                    r[name] = (a0, a0 + n)
         if 'harrLenSlice' in r:
             a = r['harrLenSlice'][0]
             pads = []
@@ -301,7 +316,7 @@ def _probe(protocol, t):
             hh[0] = L
             hh[4] = 200
             p.dataReceived(bytes(hh[:n]))
-            if p._nextMsgLen != 0:
+            if getattr(p, '_nextMsgLen', 0) != 0:       # only observable through the cache; AST otherwise
                 r['minHeader'] = n
                 break
     # line mode: remainder limit and line limit
